@@ -188,6 +188,8 @@ def gen_history(rng, spec, roots, refs, opts):
                         st['as_objects'] = True
                     if len(targets) == 1 and rng.random() < 0.5:
                         st['scalar'] = True
+                    elif st.get('via') != 'task' and rng.random() < 0.5:
+                        st['container'] = rng.choice(['tuple', 'set', 'generator', 'map', 'dict'])
                     steps.append(st)
                     steps.append({'op': 'snapshot', 'chain': c2, 'light': True, 'ri': live[c2]})
                 elif r < opts.get('p_inspect', 0.2) + opts.get('p_force', 0.0) + opts.get('p_fault', 0.0):
@@ -493,9 +495,6 @@ def evaluate_history(lab, spec, roots, refs, sessions, counters, want):
                 continue
             if op == 'force':
                 counters['force_steps'] += 1
-                if not o['ok']:
-                    add('C07', 'force_failed', f'{here}: force raised {o.get("exc")}: {o.get("msg")}')
-                    return disc, None
                 names = step['tasks']
                 if step.get('via') == 'task':
                     objs = []
@@ -511,8 +510,12 @@ def evaluate_history(lab, spec, roots, refs, sessions, counters, want):
                     for x in objs:
                         model.request(ch, x, exp_runs)
                     if model.tainted:
+                        # (the recomputation reads an in-memory handle to files another chain deleted on request: not judged, see `value`)
                         counters['histories_cut_at_dangling_handle'] += 1
                         return disc, None
+                if not o['ok']:
+                    add('C07', 'force_failed', f'{here}: force raised {o.get("exc")}: {o.get("msg")}')
+                    return disc, None
                 got = sorted((x['task'], x['key']) for x in obs_runs)
                 exp = sorted((n, k) for (n, k, _) in exp_runs)
                 ok_runs = len(got) == len(exp)
